@@ -22,6 +22,8 @@ type Use struct {
 	// ForceSupp makes the supplied (possibly mutated) parents REPLACE what the
 	// store would supply for the same IDs (C04 door 3).
 	ForceSupp bool
+	// Before: uses placed in the same block BEFORE this one (same-block interactions for single-use templates).
+	Before []Use
 	// EarlyWindowID: supply this block ID as the storage-proof window ID when the real window block does not exist yet.
 	EarlyWindowID *types.BlockID
 }
@@ -134,7 +136,12 @@ func (w *World) BlockOfUses(uses ...Use) (types.Block, consensus.V1BlockSuppleme
 }
 
 // BlockOfUsesOpts is BlockOfUses with block options.
-func (w *World) BlockOfUsesOpts(o BlockOpts, uses ...Use) (types.Block, consensus.V1BlockSupplement) {
+func (w *World) BlockOfUsesOpts(o BlockOpts, uses0 ...Use) (types.Block, consensus.V1BlockSupplement) {
+	var uses []Use
+	for _, u := range uses0 {
+		uses = append(uses, u.Before...)
+		uses = append(uses, u)
+	}
 	var v1 []types.Transaction
 	var v2 []types.V2Transaction
 	var v1uses []Use
